@@ -106,6 +106,18 @@ def split_ops(s):
     return out
 
 
+def bigdec(tt):
+    """decimal -> int without CPython's digit limit (hidc emits immediates of any size; the
+    assembler wraps them to the word)."""
+    if len(tt) <= 4000:
+        return int(tt)
+    v = 0
+    for i in range(0, len(tt), 4000):
+        c = tt[i:i + 4000]
+        v = v * 10 ** len(c) + int(c)
+    return v
+
+
 tok_re = re.compile(rb"\s*(0x[0-9a-fA-F]+w?|\d+w?|'(?:\\x[0-9a-fA-F]{2}|\\.|[^\\'])'|\$?[A-Za-z_][A-Za-z_0-9]*|[-+()&])")
 
 
@@ -146,7 +158,7 @@ def eval_static(e, W, argc, lab):
         if t[:1].isdigit():
             w = t.endswith(b'w')
             tt = t[:-1] if w else t
-            v = int(tt, 16) if tt.startswith(b'0x') else int(tt)
+            v = int(tt, 16) if tt.startswith(b'0x') else bigdec(tt)
             return (v * W if w else v), i + 1
         if t == b'$argc':
             return argc, i + 1
